@@ -26,7 +26,7 @@ def codec_cfg(depth, caps, leafset, evo, modes, rawpad=3, impl_skip=False, skip=
     return "\n".join(lines) + "\n"
 
 
-def run_cfg(module, text, timeout=1500, workers=16, coverage=False):
+def run_cfg(module, text, timeout=3000, workers=16, coverage=False):
     fd, path = tempfile.mkstemp(prefix="bpverif-cfg-", suffix=".cfg",
                                 dir=os.environ.get("TMPDIR", "/tmp"))
     with os.fdopen(fd, "w") as f:
